@@ -238,6 +238,13 @@ func c04Dispatch(r *Run, c *c04Ctx) {
 					guard = role
 				}
 			}
+			if guard == "" {
+				// the role may be decided by the caller: fn is an entry of a constant dispatch table keyed by
+				// the role, and is invoked through table[role of the Parameters it is given]
+				if gs := c04TableGuards(r, c, fn, params); len(gs) == 1 {
+					guard = gs[0]
+				}
+			}
 			create, del := c04PlansPods(r.Prog, cal)
 			pos := r.Prog.Pos(ci.Pos())
 			construct := "call of " + shortFunc(cal)
@@ -1184,4 +1191,173 @@ func c04LabelAlways(r *Run, c *c04Ctx) {
 	if n == 0 {
 		r.Check("C04.R10", "canary-label pass always reached", "-", "-", "the canary label is added by code dispatched for the canary role", false, "no add site reachable from a canary-role strategy function")
 	}
+}
+
+// c04TableGuards: fn receives `params` as a parameter and is called only through a constant
+// package-level map keyed by role constants — table[<role of the Parameters passed>](..., params) —
+// under whose key(s) fn (or the method-expression thunk of fn) is stored. Returns the role names of
+// those keys; nil when fn is not dispatched that way.
+func c04TableGuards(r *Run, c *c04Ctx, fn *ssa.Function, params ssa.Value) []string {
+	proot, ppath := accessPath(params)
+	if al, ok := proot.(*ssa.Alloc); ok {
+		proot = spillOfC(al)
+	}
+	pp, ok := proot.(*ssa.Parameter)
+	if !ok || len(ppath) != 0 || pp.Parent() != fn {
+		return nil
+	}
+	j := paramIndex(pp)
+	// fn must not also be called directly (the table key would then say nothing about that call)
+	for _, cs := range callSitesOf(fn, c.a.reach) {
+		if cs.Parent().Synthetic == "" {
+			return nil
+		}
+	}
+	top := topFuncC(fn)
+	if top.Pkg == nil {
+		return nil
+	}
+	ini := top.Pkg.Func("init")
+	if ini == nil {
+		return nil
+	}
+	// a value of the table denotes fn: fn itself or a synthetic wrapper (method expression / bound method) calling it
+	denotesFn := func(v ssa.Value) bool {
+		f, _ := unwrap(v).(*ssa.Function)
+		if mc, isMC := unwrap(v).(*ssa.MakeClosure); isMC {
+			f, _ = mc.Fn.(*ssa.Function)
+		}
+		if f == nil {
+			return false
+		}
+		if f == fn {
+			return true
+		}
+		if f.Synthetic == "" {
+			return false
+		}
+		for _, ci := range callsIn(f) {
+			if staticCallee(ci.Common()) == fn {
+				return true
+			}
+		}
+		return false
+	}
+	type entry struct {
+		g   *ssa.Global
+		key string
+	}
+	var entries []entry
+	for _, b := range ini.Blocks {
+		for _, in := range b.Instrs {
+			mu, ok := in.(*ssa.MapUpdate)
+			if !ok || !denotesFn(mu.Value) {
+				continue
+			}
+			key, isC := constString(mu.Key)
+			if !isC {
+				return nil
+			}
+			var g *ssa.Global
+			for _, b2 := range ini.Blocks {
+				for _, in2 := range b2.Instrs {
+					if st, isSt := in2.(*ssa.Store); isSt && unwrap(st.Val) == mu.Map {
+						g, _ = st.Addr.(*ssa.Global)
+					}
+				}
+			}
+			if g == nil {
+				return nil
+			}
+			entries = append(entries, entry{g, key})
+		}
+	}
+	if len(entries) == 0 {
+		return nil
+	}
+	// the table is constant: no other store to the global, no update of the map outside the initialiser
+	for _, e := range entries {
+		for _, mem := range top.Pkg.Members {
+			f, isF := mem.(*ssa.Function)
+			if !isF || f == ini {
+				continue
+			}
+			for _, b := range f.Blocks {
+				for _, in := range b.Instrs {
+					switch x := in.(type) {
+					case *ssa.Store:
+						if x.Addr == ssa.Value(e.g) {
+							return nil
+						}
+					case *ssa.MapUpdate:
+						if ld, ok := x.Map.(*ssa.UnOp); ok && ld.X == ssa.Value(e.g) {
+							return nil
+						}
+					}
+				}
+			}
+		}
+	}
+	// every use of the table is a lookup keyed by the role of the Parameters then passed at position j
+	var roles []string
+	for _, e := range entries {
+		used, okAll := false, true
+		for f := range c.a.reach {
+			for _, b := range f.Blocks {
+				for _, in := range b.Instrs {
+					lk, isL := in.(*ssa.Lookup)
+					if !isL {
+						continue
+					}
+					ld, isLd := lk.X.(*ssa.UnOp)
+					if !isLd || ld.X != ssa.Value(e.g) {
+						continue
+					}
+					used = true
+					idx := unwrap(lk.Index)
+					if !isFieldLoadC(idx, pkgStrategy, "Parameters", "ReplicaSetStatus") {
+						okAll = false
+						continue
+					}
+					iroot, _ := accessPath(idx)
+					// the looked-up function is called with that Parameters object at position j
+					called := false
+					for _, ci := range callsIn(f) {
+						if ci.Common().IsInvoke() || staticCallee(ci.Common()) != nil {
+							continue
+						}
+						fromTable := false
+						for _, o := range origins(ci.Common().Value) {
+							if o == ssa.Value(lk) {
+								fromTable = true
+							}
+							if ex, isE := o.(*ssa.Extract); isE && ex.Tuple == ssa.Value(lk) {
+								fromTable = true
+							}
+						}
+						if !fromTable || j >= len(ci.Common().Args) {
+							continue
+						}
+						aroot, apath := accessPath(ci.Common().Args[j])
+						if len(apath) == 0 && aroot == iroot {
+							called = true
+						}
+					}
+					if !called {
+						okAll = false
+					}
+				}
+			}
+		}
+		if !used || !okAll {
+			return nil
+		}
+		for role, val := range c.roleVals {
+			if !strings.HasPrefix(role, "#") && val == e.key {
+				roles = append(roles, role)
+			}
+		}
+	}
+	sort.Strings(roles)
+	return roles
 }
